@@ -126,7 +126,17 @@ pub fn run(ctx: &Ctx, rep: &mut Report) {
     std::fs::create_dir_all(&dir).unwrap();
     let node = Node::new(sc.network);
     // C16 also exercises the node-fetch path for input values (hook H5)
-    let first_height = if sc.prop == "C16" && rng.chance(1, 2) { Some(rng.range(5, 25) as u32) } else { None };
+    // ... and a quarter of the inscription / rune / event scenarios that have a
+    // sat index (full UTXO index, lost sats counted from genesis as the model
+    // does) start indexing inscriptions and runes at a later height, like the
+    // public networks do
+    let first_height = if sc.prop == "C16" && rng.chance(1, 2) {
+      Some(rng.range(5, 25) as u32)
+    } else if matches!(sc.prop, "C03" | "C04" | "C05" | "C06" | "C07" | "C08" | "C09" | "C10" | "C11" | "C37") && sc.index.sats && rng.chance(1, 2) {
+      Some(rng.range(4, 20) as u32)
+    } else {
+      None
+    };
     ord::verif::set_first_heights(first_height, first_height);
     if first_height.is_some() {
       rep.count("chains_with_late_first_inscription_height");
@@ -151,6 +161,13 @@ pub fn run(ctx: &Ctx, rep: &mut Report) {
     let mut model = Model::new();
     model.runes.network = sc.network;
     model.runes.first_rune_height = ordinals::Rune::first_rune_height(sc.network);
+    if sc.prop != "C16"
+      && let Some(h) = first_height
+    {
+      model.insc.first_height = h;
+      model.runes.first_rune_height = h;
+      rep.count("chains_with_late_first_inscription_height");
+    }
     // duplicate txids are only generated in sat scenarios; they would make
     // inscription ids ambiguous
     model.track_inscriptions = sc.gencfg.dup_coinbase_permille == 0;
